@@ -348,21 +348,6 @@ func doPolygonPair(c *vkit.Collector, rng *vkit.Rng, pl *pool, P, O *s2.Polygon,
 		}
 		report(c, kind, desc+" ["+class+", X="+xn+", Y="+yn+"]", r)
 	}
-	// is some Loop.Contains call between loops of the two polygons hit by the known defect?
-	polyDefect := func(x, y pv) bool {
-		for _, a := range x.ls {
-			for _, b := range y.ls {
-				if containsDefect(a, b) || containsDefect(b, a) {
-					return true
-				}
-			}
-		}
-		return false
-	}
-	byName := map[*s2.Polygon]pv{}
-	for _, x := range append(append([]pv{}, vp...), vo...) {
-		byName[x.p] = x
-	}
 	pairs := [][2]pv{}
 	for _, x := range vp {
 		for _, y := range vo {
@@ -377,18 +362,10 @@ func doPolygonPair(c *vkit.Collector, rng *vkit.Rng, pl *pool, P, O *s2.Polygon,
 			viol("Polygon.Intersects.sym", "X.Intersects(Y) != Y.Intersects(X)", x.name, y.name)
 		}
 		if isect != !inv[x.p].Contains(y.p) {
-			kind := "Polygon.Intersects.compl"
-			if polyDefect(byName[inv[x.p]], y) {
-				kind = knownKind
-			}
-			viol(kind, "X.Intersects(Y) != !Inv(X).Contains(Y)", x.name, y.name)
+			viol("Polygon.Intersects.compl", "X.Intersects(Y) != !Inv(X).Contains(Y)", x.name, y.name)
 		}
 		if cont != inv[y.p].Contains(inv[x.p]) {
-			kind := "Polygon.Contains.compl"
-			if polyDefect(x, y) || polyDefect(byName[inv[y.p]], byName[inv[x.p]]) {
-				kind = knownKind
-			}
-			viol(kind, "X.Contains(Y) != Inv(Y).Contains(Inv(X))", x.name, y.name)
+			viol("Polygon.Contains.compl", "X.Contains(Y) != Inv(Y).Contains(Inv(X))", x.name, y.name)
 		}
 		for _, p := range samples {
 			mx, my := memberPoly(x.ls, p), memberPoly(y.ls, p)
@@ -417,9 +394,6 @@ func doPolygonPair(c *vkit.Collector, rng *vkit.Rng, pl *pool, P, O *s2.Polygon,
 			t.plng[kxy], t.plng[kyx] = vkit.B(xb.Lng.Union(yb.Lng).IsFull()), vkit.B(yb.Lng.Union(xb.Lng).IsFull())
 			t.pbi[kxy], t.pbi[kyx] = vkit.B(xb.Intersects(yb)), vkit.B(yb.Intersects(xb))
 			exp := []int64{b2z(cont), b2z(y.p.Contains(x.p)), b2z(isect), b2z(y.p.Intersects(x.p))}
-			if polyDefect(x, y) {
-				exp[0], exp[1] = 7, 7
-			}
 			c.Check(fmt.Sprintf("polygons %s %s(%d loops) %s(%d loops)", class, x.name, x.p.NumLoops(), y.name, y.p.NumLoops()),
 				vkit.App("poly_check", t.term(), polyTerm(x.p, x.ls), polyTerm(y.p, y.ls), zlist(exp)))
 		}
